@@ -6,7 +6,7 @@ K_NOTE = ("Trusted: Kani 0.68/CBMC 6.11 semantics of the compiled crate; the stu
 M_NOTE = ("Trusted: the MIR->SMT executor (mirsym) and its closed list of summaries for nalgebra/std/itertools/rand (printed in the evidence, validated each run against the real functions on concrete vectors); "
           "z3 4.8.12. R-mode obligations are about the exact-real semantics of the MIR expressions (rounding outside the claim); sat models are rounded to doubles and replayed against the real build before being reported.")
 CHECKS = {
- "C05": ("kani", "bounded model checking (Kani/CBMC) of the real optimise_state on a scripted State with symbolic script, kt_start = 0", "5 C05", K_NOTE),
+ "C05": ("mirsym+kani", "symbolic execution of optimise_state's MIR per accept/reject history + z3 (all settings symbolic, kt_start = 0), and Kani/CBMC on the compiled code; scripted State + specification monitor", "5 C05", K_NOTE),
  "C06": ("kani", "bounded model checking (Kani/CBMC) of the real optimise_state: bit-exact held-vector monitor over symbolic accept/reject histories", "5 C06", K_NOTE),
  "C07": ("kani", "bounded model checking (Kani/CBMC): decisions vs Metropolis rule with outcome-forcing exp stub; argument handed to exp checked", "5 C07", K_NOTE),
  "C18": ("kani", "bounded model checking (Kani/CBMC): per-loop temperature observed through the exp/powf stub arguments", "5 C18", K_NOTE),
@@ -14,6 +14,9 @@ CHECKS = {
  "C20": ("kani", "bounded model checking (Kani/CBMC): panic freedom and proposal counts for concrete (steps, inner_steps) edges, convergence rule", "5 C20", K_NOTE),
  "C12": ("mirsym", "symbolic execution of the MIR of Line2/Atom2/LineShape/MolecularShape2::intersects + z3 (nlsat) against exact geometry", "5 C12", M_NOTE),
  "C13": ("mirsym", "symbolic execution of the MIR of LJ2::energy / lj2_ops::mul / LJShape2::energy + z3 against the shifted truncated 12-6 law", "5 C13", M_NOTE),
+ "C02": ("mirsym", "symbolic execution of PackedState::score (shape opaque), LineShape::from_radial+area, MolecularShape2::area/from_trimer MIR + z3: score formula, polygon shoelace area, disc formulas, trimer validity query (known findings)", "5 C02", M_NOTE),
+ "C08": ("mirsym", "MIR execution of get_degrees_of_freedom/get_basis/generate_basis/set_value/reset_value/from_wyckoff/from_family + z3: handles, ranges, one-step induction, initial validity; optimise_state histories keep proposals in range", "5 C08", M_NOTE),
+ "C09": ("mirsym+kani", "sequential core only: Clone fidelity and seed dataflow from MIR + z3, Kani pointer-precise clone isolation harnesses; thread schedules NOT explored", "5 C09", M_NOTE + " " + K_NOTE),
  "C03": ("mirsym", "symbolic execution of PotentialState::score MIR with the shape's energy uninterpreted + z3: the sum equals the lattice energy per molecule with every pair once (weights, pair set, normalisation)", "5 C03", M_NOTE),
  "C14": ("mirsym", "symbolic execution of the MIR of Cell2::{to_cartesian*, area, periodic_images} with iterator models + z3: lattice identities for all cells, k <= 3", "5 C14", M_NOTE),
  "C15": ("mirsym", "symbolic execution of the MIR of OccupiedSite::positions / Transform2::periodic + z3 (reals) and QF_FP (bit-precise wrap range)", "5 C15", M_NOTE),
